@@ -8,6 +8,7 @@ import (
 	"go/ast"
 	"go/token"
 	"go/types"
+	"strings"
 )
 
 type pathCond struct {
@@ -41,6 +42,8 @@ type denum struct {
 	inSwitch    int
 	decls       map[types.Object]*ast.FuncDecl // package-local functions that may be inlined when they are used as conditions
 	inlineDepth int
+	loopsOnce   bool                             // loops that are not unrolled are entered zero times or once (their body's branches become path conditions)
+	iterExit    *[]dstate                        // while the body of such a loop is run: where continue / break go
 	tsClause    map[ast.Expr]*ast.CaseClause     // synthetic type atoms → the clause taken (nil: default / no clause)
 	tsSwitch    map[ast.Expr]*ast.TypeSwitchStmt // … → their type switch
 }
@@ -96,6 +99,43 @@ func (s dstate) with(e ast.Expr, v bool) dstate {
 // path (loop variables of unrolled loops and parameters of inlined predicates change their binding later on).
 func (d *denum) rec(s dstate, e ast.Expr, v bool) dstate {
 	return s.with(d.subst(e, s.env, 0), v)
+}
+
+// contradicts: the state already took the same pure field read (x.f.g, nothing assigned to it on the way) with the
+// opposite truth value — the combination is infeasible.
+func (d *denum) contradicts(s dstate, e ast.Expr, v bool) bool {
+	se, ok := ast.Unparen(e).(*ast.SelectorExpr)
+	if !ok {
+		return false
+	}
+	root := ast.Expr(se)
+	for {
+		if x, ok := ast.Unparen(root).(*ast.SelectorExpr); ok {
+			root = x.X
+			continue
+		}
+		break
+	}
+	if _, ok := ast.Unparen(root).(*ast.Ident); !ok {
+		return false
+	}
+	txt := types.ExprString(se)
+	for _, t := range s.trace {
+		if as, ok := t.(*ast.AssignStmt); ok {
+			for _, l := range as.Lhs {
+				lt := types.ExprString(l)
+				if lt == txt || strings.HasPrefix(txt, lt+".") {
+					return false // assigned on the way: the two reads may differ
+				}
+			}
+		}
+	}
+	for _, pc := range s.conds {
+		if pc.Val != v && types.ExprString(pc.Expr) == txt {
+			return true
+		}
+	}
+	return false
 }
 
 func (d *denum) subst(e ast.Expr, env map[types.Object]ast.Expr, depth int) ast.Expr {
@@ -295,8 +335,12 @@ func (d *denum) split(cond ast.Expr, in []dstate) (t, f []dstate) {
 		}
 	}
 	for _, s := range in {
-		t = append(t, d.rec(s, cond, true))
-		f = append(f, d.rec(s, cond, false))
+		if !d.contradicts(s, cond, true) {
+			t = append(t, d.rec(s, cond, true))
+		}
+		if !d.contradicts(s, cond, false) {
+			f = append(f, d.rec(s, cond, false))
+		}
 	}
 	return
 }
@@ -482,6 +526,10 @@ func (d *denum) run(stmts []ast.Stmt, in []dstate) []dstate {
 			}
 			cur = after
 		case *ast.BranchStmt:
+			if d.iterExit != nil && s.Label == nil && (s.Tok == token.CONTINUE || s.Tok == token.BREAK && d.inSwitch == 0) {
+				*d.iterExit = append(*d.iterExit, cur...)
+				return nil
+			}
 			if d.loopBody && s.Label != nil && (s.Tok == token.CONTINUE || s.Tok == token.BREAK) {
 				// a labelled jump out of (or to the head of) an enclosing loop: this iteration is over
 				for _, x := range cur {
@@ -499,6 +547,10 @@ func (d *denum) run(stmts []ast.Stmt, in []dstate) []dstate {
 			return nil
 		case *ast.RangeStmt:
 			elems := d.constElems(s.X, cur)
+			if elems == nil && d.loopsOnce {
+				cur = d.once(s, s.Body, cur)
+				continue
+			}
 			if elems == nil {
 				if d.opaqueLoops {
 					cur = d.havoc(s, traced(cur, s))
@@ -540,6 +592,13 @@ func (d *denum) run(stmts []ast.Stmt, in []dstate) []dstate {
 				cur = d.run(s.Body.List, states)
 			}
 		case *ast.ForStmt:
+			if d.loopsOnce {
+				if s.Init != nil {
+					cur = d.run([]ast.Stmt{s.Init}, cur)
+				}
+				cur = d.once(s, s.Body, cur)
+				continue
+			}
 			if d.opaqueLoops {
 				cur = d.havoc(s, traced(cur, s))
 				continue
@@ -716,4 +775,18 @@ func (d *denum) membership(b ast.Expr) ast.Expr {
 		}
 	}
 	return out
+}
+
+// once: the states after a loop that runs zero times or exactly once (the loop's own variables are unknown).
+func (d *denum) once(loop ast.Stmt, body *ast.BlockStmt, in []dstate) []dstate {
+	in = d.havoc(loop, in)
+	var exits []dstate
+	saved, savedSw := d.iterExit, d.inSwitch
+	d.iterExit, d.inSwitch = &exits, 0
+	after := d.run(body.List, in)
+	d.iterExit, d.inSwitch = saved, savedSw
+	out := append([]dstate{}, in...) // zero iterations
+	out = append(out, after...)
+	out = append(out, exits...)
+	return d.havoc(loop, out)
 }
